@@ -46,7 +46,12 @@ C10_SCN = [dict(file="scenarios/token_F6.ndjson", cfg="users=3,stake=40," + BASE
            # one name as symbol of one token and min unit of another: conversions, the hook
            # and the burned side of the fee swap must resolve by min unit
            dict(file="scenarios/token_namespace_erc.ndjson",
-                cfg="users=3,stake=40," + BASE + ",regin=maa,regout=mbb,regrn=1,regrd=1")]
+                cfg="users=3,stake=40," + BASE + ",regin=maa,regout=mbb,regrn=1,regrd=1"),
+           # regression for fixed finding F27: a token whose SYMBOL equals the swap target's
+           # min unit must not lend its scale to the fee swap
+           dict(file="scenarios/token_namespace_swap.ndjson",
+                cfg="users=3,stake=40,minunits=maa:mbb:mcc,basefee=5,taxnum=2,taxden=5,mintnum=1,mintden=2,"
+                    "regin=maa,regout=mbb,regrn=1,regrd=1,nsswap=1")]
 
 # histories recorded (VERIF_RECORD_DIR) for the cross-module checks C11 / C12; the
 # random driver draws its own configuration; while recording it neither injects the
